@@ -2,6 +2,7 @@ package checks
 
 import (
 	"regexp"
+	"strings"
 
 	"verifharness/vlib"
 )
@@ -21,6 +22,7 @@ func ErrClass(err error) string {
 		return "<nil>"
 	}
 	s := reNum.ReplaceAllString(err.Error(), "N")
+	s = strings.ReplaceAll(s, "in N@N: ", "") // nesting depth of the reference parser's error is not part of the class
 	if len(s) > 120 {
 		s = s[:120]
 	}
